@@ -332,8 +332,33 @@ def check_store_wide(ctx, t):
     ctx.expect(paths, ret=1)
 
 
+def check_cb_wide(ctx):
+    b0 = ctx.sandbox_base(32, "b0", aligned=False)
+    x = ctx.sym("x", 32)
+    ctx.assume(x == 0)
+    paths = ctx.run("k_cb_wide_args", [b0, x])
+    nbody = 0
+    for q in paths:
+        env = dict((t, v) for (t, v) in (q.user.get("env") or []))
+        v, u = env.get(44), env.get(45)
+        body = [e for e in (q.user.get("log") or []) if e[0] == 20]
+        as_bv = lambda t: BV(t, 64) if isinstance(t, int) else t
+        if body:
+            nbody += 1
+            ctx.require(q, z3.And(as_bv(body[0][1]) == v, as_bv(body[0][2]) == u),
+                        "the callback observes exactly the guest's argument values (signed 64-bit guest int, unsigned 64-bit guest unsigned) or is not entered")
+        elif q.status == "abort" and v is not None and u is not None:
+            fits = z3.And(v >= BV(-(1 << 31), 64), v <= BV((1 << 31) - 1, 64), z3.ULE(u, BV(0xFFFFFFFF, 64)))
+            ctx.require(q, z3.Not(fits), "the crossing is refused only for a value the application type cannot represent")
+    ctx.only(paths, "ret", "abort")
+    ctx.expect(paths, ret=1, abort=1)
+    if nbody == 0:
+        ctx.inconclusive.append("callback body never reached")
+
+
 def jobs(tier, seed):
     out = []
+    out.append(Job("C06_cb_wide", '#include "C06_cbwide.inc"\n', [dict(name="BM wide guest int: callback arguments narrow faithfully or are refused", fn=check_cb_wide, unwind=300)], native=False))
     froms = C.ALL_INTS + [C.BOOL]
     for to in C.ALL_INTS:
         out.append(Job("C06_scalar_" + to.tag, scalar_source(to, froms),
